@@ -306,8 +306,23 @@ func archiveMain(args []string) {
 	tmp, _ := os.MkdirTemp("", "verif-arch")
 	defer os.RemoveAll(tmp)
 	ctx := context.Background()
-	for i := 0; i < n; i++ {
-		nodes := genTree(rnd, maxE, maxD, o.Thorough(), i%3 != 0)
+	// a directed tree that runs first under each of the three unzip modes: archive-like names on a directory, on an empty
+	// file and on a non-empty file, names made of white space only, an empty directory, nesting
+	base0 := time.Date(2021, 3, 4, 5, 6, 7, 0, time.UTC)
+	directed := []tNode{
+		{rel: "dir.gz", dir: true, mtime: base0}, {rel: "dir.gz/inside.txt", content: []byte("inside"), mtime: base0.Add(time.Hour)},
+		{rel: "empty.zip", content: []byte{}, mtime: base0.Add(2 * time.Hour)}, {rel: "notes.7z", content: []byte("not an archive at all"), mtime: base0.Add(3 * time.Hour)},
+		{rel: " ", content: []byte("blank name"), mtime: base0.Add(4 * time.Hour)}, {rel: "\u3000", dir: true, mtime: base0.Add(5 * time.Hour)},
+		{rel: "sub", dir: true, mtime: base0.Add(6 * time.Hour)}, {rel: "sub/pack.Z", dir: true, mtime: base0.Add(7 * time.Hour)},
+		{rel: "sub/pack.Z/empty.jar", content: []byte{}, mtime: base0.Add(8 * time.Hour)}, {rel: "sub/void", dir: true, mtime: base0.Add(9 * time.Hour)},
+	}
+	for i := -3; i < n; i++ {
+		var nodes []tNode
+		if i < 0 {
+			nodes = directed
+		} else {
+			nodes = genTree(rnd, maxE, maxD, o.Thorough(), i%3 != 0)
+		}
 		hasDotDot := false
 		for _, nd := range nodes {
 			if strings.Contains(nd.rel, "..") {
@@ -354,7 +369,7 @@ func archiveMain(args []string) {
 			}
 			var list []string
 			var uerr error
-			switch i % 3 {
+			switch ((i % 3) + 3) % 3 {
 			case 0:
 				list, uerr = fs.Unzip(zipf, dst)
 				rep.Hist("unzip:no-limits")
